@@ -361,6 +361,22 @@ PROPS['C17'] = dict(
 )
 
 
+# ---------------------------------------------------------------- C16 (h_aux)
+PROPS['C16'] = dict(
+    level_text='Model-based exploration: random histories of up to ~40 insertions (int/double/string, C++ and C), overwrites, removals, lookups, typed reads and FITS round trips (disk and memory, the object being replaced by what was read) '
+               'over a 35-key alphabet (short, 8-character, HIERARCH-length, reserved prefixes, lower-case, punctuated, empty, END/HISTORY/CONTINUE/BSCALE/...) are replayed against an insertion-ordered list model; '
+               'after every operation the whole store is compared with the model; must-reject inputs must throw and leave the store unchanged; every accepted entry must survive serialisation; LeakSanitizer per history.',
+    level_note=NOTE_COMMON + '; typed reads are judged against stream extraction / strtod of the stored string',
+    technique='runtime monitor: abstract ordered-map model replayed against the real store, under ASan/UBSan/LSan',
+    targets=[T('h_aux.cpp', 'asan')],
+    passes=lambda tier, sc: [Pass('asan', 'h_aux.asan', 'C16', n(tier, 500, 10000, sc), env=LEAK_ENV, stall_s=300)],
+    level='exploration',
+    rule='case = one history of 5-40 operations on one table; distinct_nontrivial counts distinct histories (hash of the (operation, key) sequence)',
+    assumptions=ASSUME_COMMON,
+    require={'any': {'writes-accepted': 800, 'writes-rejected': 500, 'ops:roundtrip': 800, 'ops:remove': 300, 'ops:read': 500}},
+)
+
+
 def all_targets():
     seen, out = set(), []
     for p in PROPS.values():
